@@ -274,6 +274,146 @@ fn main() {
                     _ => "UNKNOWN".to_string(),
                 }
             }
+            // errbody <negotiated rate-limit error code|-> <body hex|->: Error::deserialize of an ERROR body, rendered canonically (texts as written, ids in hex)
+            "errbody" => {
+                use scylla_cql_core::frame::protocol_features::ProtocolFeatures;
+                use scylla_cql_core::frame::response::error::{DbError, Error};
+                let mut features = ProtocolFeatures::default();
+                if a[1] != "-" { features.rate_limit_error = Some(a[1].parse().unwrap()); }
+                let data = unhex(a[2]);
+                match Error::deserialize(&features, &mut &data[..]) {
+                    Err(_) => "ERR".to_string(),
+                    Ok(e) => {
+                        let v = match &e.error {
+                            DbError::Unavailable { consistency, required, alive } => format!("Unavailable {:?} {} {}", consistency, required, alive),
+                            DbError::WriteTimeout { consistency, received, required, write_type } => format!("WriteTimeout {:?} {} {} {:?}", consistency, received, required, write_type),
+                            DbError::ReadTimeout { consistency, received, required, data_present } => format!("ReadTimeout {:?} {} {} {}", consistency, received, required, data_present),
+                            DbError::ReadFailure { consistency, received, required, numfailures, data_present } => format!("ReadFailure {:?} {} {} {} {}", consistency, received, required, numfailures, data_present),
+                            DbError::FunctionFailure { keyspace, function, arg_types } => format!("FunctionFailure {:?} {:?} {:?}", keyspace, function, arg_types),
+                            DbError::WriteFailure { consistency, received, required, numfailures, write_type } => format!("WriteFailure {:?} {} {} {} {:?}", consistency, received, required, numfailures, write_type),
+                            DbError::AlreadyExists { keyspace, table } => format!("AlreadyExists {:?} {:?}", keyspace, table),
+                            DbError::Unprepared { statement_id } => format!("Unprepared {}", hex(statement_id)),
+                            DbError::RateLimitReached { op_type, rejected_by_coordinator } => format!("RateLimitReached {:?} {}", op_type, rejected_by_coordinator),
+                            DbError::Other(code) => format!("Other {}", code),
+                            other => format!("{:?}", other),
+                        };
+                        format!("OK {} reason={:?}", v, e.reason)
+                    }
+                }
+            }
+            // resmeta <extension 0|1> <metadata bytes hex>: the real result-metadata decoder on exactly these bytes (+ one trailing byte that must stay unread)
+            "resmeta" => {
+                use scylla_cql::frame::response::result::verif_hooks as vr;
+                use scylla_cql_core::frame::protocol_features::ProtocolFeatures;
+                use scylla_cql_core::frame::request::query::PagingStateResponse;
+                let mut features = ProtocolFeatures::default();
+                features.scylla_metadata_id_supported = a[1] == "1";
+                let mut data = unhex(a[2]);
+                data.push(0xEE);
+                let mut buf = &data[..];
+                match vr::result_metadata(&mut buf, &features) {
+                    Ok((md, paging)) => {
+                        let specs: Vec<String> = md.col_specs().iter().map(|c| format!("{}.{}.{}:{}", c.table_spec().ks_name(), c.table_spec().table_name(), c.name(),
+                            match c.typ() { ColumnType::Native(n) => format!("{:?}", n), other => format!("{:?}", other) })).collect();
+                        let pg = match paging { PagingStateResponse::HasMorePages { state } => state.as_bytes_slice().map(|b| hex(b)).unwrap_or("start".to_string()), PagingStateResponse::NoMorePages => "none".to_string() };
+                        format!("OK cols={} id={} paging={} specs={}{}", md.col_count(), md.id().map(hex).unwrap_or("none".to_string()), pg,
+                                if specs.is_empty() { "-".to_string() } else { specs.join(",") }, if buf.len() == 1 { "" } else { " UNREAD-MISMATCH" })
+                    }
+                    Err(_) => "ERR".to_string(),
+                }
+            }
+            // coltype <type bytes hex|-> [cut]: the real column-type decoder on these bytes (+ one trailing byte unless `cut`)
+            "coltype" => {
+                use scylla_cql::frame::response::result::verif_hooks as vr;
+                use scylla_cql_core::frame::response::result::CollectionType;
+                fn show(t: &ColumnType) -> String {
+                    match t {
+                        ColumnType::Native(n) => format!("{:?}", n),
+                        ColumnType::Collection { typ: CollectionType::List(e), .. } => format!("list<{}>", show(e)),
+                        ColumnType::Collection { typ: CollectionType::Set(e), .. } => format!("set<{}>", show(e)),
+                        ColumnType::Collection { typ: CollectionType::Map(k, v), .. } => format!("map<{},{}>", show(k), show(v)),
+                        ColumnType::Tuple(ts) => format!("tuple<{}>", ts.iter().map(show).collect::<Vec<_>>().join(",")),
+                        ColumnType::UserDefinedType { definition, .. } => format!("udt {}.{} {{{}}}", definition.keyspace, definition.name,
+                            definition.field_types.iter().map(|(f, t)| format!("{}:{}", f, show(t))).collect::<Vec<_>>().join(",")),
+                        other => format!("{:?}", other),
+                    }
+                }
+                let mut data = unhex(a[1]);
+                let cut = a.len() > 2 && a[2] == "cut";
+                if !cut { data.push(0xAA); }
+                let mut buf = &data[..];
+                match vr::column_type(&mut buf) {
+                    Ok(t) => format!("OK rest={} {}", buf.len(), show(&t)),
+                    Err(_) => "ERR".to_string(),
+                }
+            }
+            // event <body hex|->: EventV2::deserialize, rendered canonically
+            "event" => {
+                use scylla_cql::frame::response::event::{EventV2, SchemaChangeEvent, StatusChangeEvent, TopologyChangeEvent};
+                let data = unhex(a[1]);
+                let list = |v: &Vec<String>| if v.is_empty() { "".to_string() } else { v.iter().map(|s| if s.is_empty() { "-".to_string() } else { s.clone() }).collect::<Vec<_>>().join(",") };
+                let t = |s: &String| if s.is_empty() { "-".to_string() } else { s.clone() };
+                match EventV2::deserialize(&mut &data[..]) {
+                    Err(_) => "ERR".to_string(),
+                    Ok(EventV2::TopologyChange(TopologyChangeEvent::NewNode(a))) => format!("OK Topology NewNode {} {}", a.ip(), a.port()),
+                    Ok(EventV2::TopologyChange(TopologyChangeEvent::RemovedNode(a))) => format!("OK Topology RemovedNode {} {}", a.ip(), a.port()),
+                    Ok(EventV2::StatusChange(StatusChangeEvent::Up(a))) => format!("OK Status Up {} {}", a.ip(), a.port()),
+                    Ok(EventV2::StatusChange(StatusChangeEvent::Down(a))) => format!("OK Status Down {} {}", a.ip(), a.port()),
+                    Ok(EventV2::SchemaChange(s)) => match s {
+                        SchemaChangeEvent::KeyspaceChange { change_type, keyspace_name } => format!("OK Schema KeyspaceChange {:?} {}", change_type, t(&keyspace_name)),
+                        SchemaChangeEvent::TableChange { change_type, keyspace_name, object_name } => format!("OK Schema TableChange {:?} {} {}", change_type, t(&keyspace_name), t(&object_name)),
+                        SchemaChangeEvent::TypeChange { change_type, keyspace_name, type_name } => format!("OK Schema TypeChange {:?} {} {}", change_type, t(&keyspace_name), t(&type_name)),
+                        SchemaChangeEvent::FunctionChange { change_type, keyspace_name, function_name, arguments } => format!("OK Schema FunctionChange {:?} {} {} args={}", change_type, t(&keyspace_name), t(&function_name), list(&arguments)),
+                        SchemaChangeEvent::AggregateChange { change_type, keyspace_name, aggregate_name, arguments } => format!("OK Schema AggregateChange {:?} {} {} args={}", change_type, t(&keyspace_name), t(&aggregate_name), list(&arguments)),
+                    },
+                    Ok(other) => format!("OK other {:?}", other),
+                }
+            }
+            // smallbody <authenticate|success|challenge|supported> <body hex|->
+            "smallbody" => {
+                use scylla_cql::frame::response::authenticate::{AuthChallenge, AuthSuccess, Authenticate};
+                use scylla_cql::frame::response::Supported;
+                let data = unhex(a[2]);
+                let tok = |o: Option<Vec<u8>>| match o { None => "none".to_string(), Some(v) if v.is_empty() => "empty".to_string(), Some(v) => hex(&v) };
+                match a[1] {
+                    "authenticate" => match Authenticate::deserialize(&mut &data[..]) { Ok(x) => format!("OK {}", if x.authenticator_name.is_empty() { "-".to_string() } else { x.authenticator_name }), Err(_) => "ERR".to_string() },
+                    "success" => match AuthSuccess::deserialize(&mut &data[..]) { Ok(x) => format!("OK {}", tok(x.success_message)), Err(_) => "ERR".to_string() },
+                    "challenge" => match AuthChallenge::deserialize(&mut &data[..]) { Ok(x) => format!("OK {}", tok(x.authenticate_message)), Err(_) => "ERR".to_string() },
+                    "supported" => match Supported::deserialize(&mut &data[..]) {
+                        Ok(x) => { let mut v: Vec<String> = x.options.iter().map(|(k, vs)| format!("{}={}", k, vs.join(","))).collect(); v.sort(); format!("OK {}", v.join(";")) }
+                        Err(_) => "ERR".to_string(),
+                    },
+                    _ => "UNKNOWN".to_string(),
+                }
+            }
+            // opcode <ResponseOpcode|RequestOpcode> <byte>
+            "opcode" => {
+                let b: u8 = a[2].parse().unwrap();
+                if a[1] == "ResponseOpcode" {
+                    match scylla_cql::frame::response::ResponseOpcode::try_from(b) { Ok(o) => format!("{:?}", o), Err(_) => "ERR".to_string() }
+                } else {
+                    match scylla_cql::frame::request::RequestOpcode::try_from(b) { Ok(o) => format!("{:?}", o), Err(_) => "ERR".to_string() }
+                }
+            }
+            // wirecodes: the numeric values of the enums that go on the wire, as compiled
+            "wirecodes" => {
+                use scylla_cql::frame::request::RequestOpcode as O;
+                use scylla_cql::frame::request::batch::BatchType as B;
+                use Consistency as C;
+                use SerialConsistency as S;
+                let mut v: Vec<String> = Vec::new();
+                for (n, c) in [("Any", C::Any), ("One", C::One), ("Two", C::Two), ("Three", C::Three), ("Quorum", C::Quorum), ("All", C::All), ("LocalQuorum", C::LocalQuorum),
+                               ("EachQuorum", C::EachQuorum), ("Serial", C::Serial), ("LocalSerial", C::LocalSerial), ("LocalOne", C::LocalOne)] {
+                    v.push(format!("Consistency::{}={}", n, c as u16));
+                }
+                for (n, c) in [("Serial", S::Serial), ("LocalSerial", S::LocalSerial)] { v.push(format!("SerialConsistency::{}={}", n, c as i16)); }
+                for (n, c) in [("Logged", B::Logged), ("Unlogged", B::Unlogged), ("Counter", B::Counter)] { v.push(format!("BatchType::{}={}", n, c as u8)); }
+                for (n, c) in [("Startup", O::Startup), ("Options", O::Options), ("Query", O::Query), ("Prepare", O::Prepare), ("Execute", O::Execute), ("Register", O::Register),
+                               ("Batch", O::Batch), ("AuthResponse", O::AuthResponse)] {
+                    v.push(format!("RequestOpcode::{}={}", n, c as u8));
+                }
+                v.join(" ")
+            }
             _ => "UNKNOWN".to_string(),
         })
         .unwrap_or("PANIC".to_string());
